@@ -42,6 +42,8 @@ $c10 = comdat nodeduplicate
 @g2 = global i32* @g1, comdat($c2)
 @g10 = global %real 2.5, comdat($c10)
 @h = global double 1.0e+00
+@"q g" = global i32 1
+@"1q" = global i32* @"q g"
 @h2 = global double 2.5
 @h3 = global [2 x i8] c"ab"
 @0 = global i64 u0x1000000000
@@ -57,7 +59,10 @@ next:
 }
 define i32 @k(i32) #1 {
   %2 = add i32 %0, 4096
-  ret i32 %2
+  %"a b" = add i32 %2, 1
+  br label %"l 1"
+"l 1":
+  ret i32 %"a b"
 }
 declare void @d() #2
 attributes #0 = { nounwind }
@@ -87,6 +92,8 @@ $c2 = comdat any
 @g2 = global i64* @g1, comdat($c2)
 @g10 = global %real 2.5
 @h = global float 1.0e+00
+@"q g" = global i64 1
+@"1q" = global i64* @"q g"
 @h2 = global float 2.5
 @h3 = global [2 x i8] c"cd"
 @0 = global i32 4096
@@ -98,7 +105,10 @@ entry:
 }
 define i64 @k(i64) #1 {
   %2 = add i64 %0, 4096
-  ret i64 %2
+  %"a b" = add i64 %2, 1
+  br label %"l 1"
+"l 1":
+  ret i64 %"a b"
 }
 attributes #0 = { noreturn }
 attributes #1 = { nounwind }
